@@ -1,0 +1,16 @@
+//go:build verif
+
+// Contracts checked by /verif/gowp. This file contains comments only and is compiled only
+// with -tags verif.
+
+package composite
+
+//@ func composite.updateXRConditions
+//@ props C05
+//@ site (*composite.Unstructured).SetConditions(_, $cs...)
+//@   assert [C05:two-conditions] len($cs) == 2
+//@   assert [C05:types] $cs[0].Type == "Synced" && $cs[1].Type == "Ready"
+//@   assert [C05:synced-not-overstated] $cs[0].Status == "True" ==> len(unsynced) == 0
+//@   assert [C05:ready-not-overstated] $cs[1].Status == "True" ==>
+//@        (res.Composite.Ready != nil && *res.Composite.Ready) || (res.Composite.Ready == nil && len(unready) == 0)
+//@ ensures [C05:requeue] result == (len(unsynced) > 0 || len(unready) > 0)
